@@ -99,6 +99,9 @@ void RunScenario(Scenario sc) {
     if (shared[i]) {
       auto [f, p] = yaclib::MakeSharedContract<Payload>();
       vrt::NameLoc(&f.GetCore()->_callback, "w" + std::to_string(i), FmtWord);
+      // the shared state's reference count (a fetch_sub counter like the event's): named so that it is not mistaken for it
+      using Counted = yaclib::detail::Helper<yaclib::detail::AtomicCounter, SF::Core>;
+      vrt::NameLoc(&static_cast<Counted*>(f.GetCore().Get())->count, "r" + std::to_string(i));
       sf[i] = std::move(f);
       sp[i] = std::move(p);
     } else {
@@ -119,7 +122,16 @@ void RunScenario(Scenario sc) {
       } else {
         std::move(up[i]).Set(Payload{100 + i});
       }
-      vrt::Event("pdone " + std::to_string(i));
+    });
+  }
+  // With a single producer nothing else is runnable while the waiter sleeps, so the virtual clock would never reach a
+  // deadline that lies in the future: a ticker fiber that only yields lets the explorer advance the clock.
+  const bool ticking = n == 1 && Timed(sc.form) && sc.d > 0 && sc.d < 1000;
+  std::optional<yaclib_std::thread> ticker;
+  if (ticking) {
+    ticker.emplace([&] {
+      vrt::NameThread("T");
+      yaclib_std::this_thread::yield();
     });
   }
   yaclib_std::thread waiter([&] {
@@ -175,7 +187,7 @@ void RunScenario(Scenario sc) {
       vrt::Fail(std::string(Timed(sc.form) ? "timed wait returned true" : "Wait returned") +
                 " but a listed future is not Ready");
     }
-    if (!r && t_ret < t_call + static_cast<std::uint64_t>(sc.d)) {
+    if (!r && static_cast<long>(t_ret) < static_cast<long>(t_call) + sc.d) {
       vrt::Fail("timed wait returned false before the deadline has passed");
     }
     // ---- a later consumer on every future
@@ -194,15 +206,20 @@ void RunScenario(Scenario sc) {
         vrt::Event("got " + si + " " + std::to_string(obs[i].got_code));
       };
       if (!shared[i]) {
+        // markers as in h_c01.cpp: the per-future suffix of the trace is also replayed through the C01 model
         if (kind == 0) {
+          vrt::Event("lwait " + si);
           R res = std::move(uf[i]).Get();
           got(res);
         } else if (kind == 1) {
           std::move(uf[i]).DetachInline(cb);
         } else {
+          vrt::Event("lwait " + si);
           yaclib::Wait(uf[i]);
+          vrt::Event("peek " + si);
           const R* res = std::as_const(uf[i]).Get();
           if (res == nullptr) {
+            vrt::Event("notready " + si);
             vrt::Fail("a later Wait returned but Get const& says not ready");
           } else {
             got(*res);
@@ -235,6 +252,9 @@ void RunScenario(Scenario sc) {
     t.join();
   }
   waiter.join();
+  if (ticker) {
+    ticker->join();
+  }
   // ---- oracle at the end: delivered exactly once, intact
   for (int i = 0; i < n; ++i) {
     const int kind = (i + sc.l) % 3;
@@ -266,14 +286,16 @@ void RunScenario(Scenario sc) {
 
 int main(int argc, char** argv) {
   vrt::Main m(argc, argv);
-  const long deadlines[] = {0, 20, 60, 1000000};
+  // Deadlines are kept off the scheduler's 10 ns grid: Scheduler::SleepPreemptive (fault layer, C18's subject) looks up
+  // _sleep_list.end() when a deadline equals the current virtual time.  -5: already passed when the wait starts.
+  const long deadlines[] = {-5, 15, 55, 1000005};
   for (int form = 0; form < kForms; ++form) {
     for (int n = 1; n <= 3; ++n) {
       if (form == kMW && n == 1) {
         continue;
       }
       for (long d : deadlines) {
-        if (!Timed(form) && d != 0) {
+        if (!Timed(form) && d != -5) {
           continue;
         }
         for (int l = 0; l < 3; ++l) {
